@@ -53,7 +53,7 @@ PROPS = {
     },
     'C02': {
         'repotests': True,
-        'mc_quick': ['MC_quick_clean.cfg', ('Backup_q.cfg', 300, 'FBBackup.tla')],
+        'mc_quick': ['MC_quick_clean.cfg', ('Backup_q.cfg', 300, 'FBBackup.tla'), ('Backup_twice_first.cfg', 300, 'FBBackup.tla')],
         'mc_thorough': MC_THOROUGH + [('Backup.cfg', 900, 'FBBackup.tla')],
         'title': 'Rollback',
         'units': [('swap', 1500, 20000), ('subcache', 500, 6000), ('subcacheq', 300, 4000), ('crash', 2000, 40000), ('forcrash', 800, 15000), ('foreign', 400, 6000), ('selfnest', 600, 8000), ('bulk', 3, 20),
